@@ -526,6 +526,35 @@ def gen_case_dups(rng, nq=8):
     return {"sig": sig, "base": [{"vec": v, "B": B, "A": A} for v, (B, A) in zip(bv, base)], "qs": qs, "via": "api"}
 
 
+def gen_case_inherit(rng, nq=8):
+    """Inheritance with exceptions over 5-6 atoms (beyond the oracle; for the relational checks): a class b with default
+    properties (q_i|b), a subclass p with (b|p), an exception (!q_1|p) and a compound exception (!q_j,!q_k | p,q_m). Queries
+    (+-q_a | p, +-q_b[, +-q_c]) tie in the upper layer on a non-empty falsification set and are decided by differently sized
+    correction sets of the lower layer -- the shape on which bookkeeping across the layer recursion (ignore lists, carried
+    costs, insertion order of the conditionals) shows."""
+    k = rng.choice([3, 4, 4])
+    props = [f"q{i}" for i in range(1, k + 1)]
+    sig = ["b", "p"] + props
+    V, N = M.V, M.Not
+    base = [(V(q), V("b")) for q in props] + [(V("b"), V("p")), (N(V(props[0])), V("p"))]
+    j, kk, m = rng.sample(props[1:] if k >= 4 else props, 3) if k >= 4 else (props[1], props[2], props[0])
+    base.append((M.And(N(V(j)), N(V(kk))), M.And(V("p"), V(m))))
+    if rng.random() < 0.5:
+        base.append((N(V(rng.choice(props))), M.And(V("p"), V(rng.choice(props)))))
+    rng.shuffle(base)
+    lit = lambda a: V(a) if rng.random() < 0.5 else N(V(a))
+    qs, seen = [], set()
+    while len(qs) < nq:
+        a, b2, c2 = rng.sample(props, 3)
+        A = M.And(V("p"), lit(b2)) if rng.random() < 0.6 else M.And(M.And(V("p"), lit(b2)), lit(c2))
+        q = (lit(a), A)
+        t = M.render_cond(*q)
+        if t not in seen:
+            seen.add(t)
+            qs.append(q)
+    return {"sig": sig, "base": base, "qs": qs}
+
+
 def gen_case_chain(rng, nq=12):
     """Specificity chains (exceptions of exceptions): bases with three or more tolerance layers over 4-5 atoms, with
     queries whose antecedents are arbitrary depth-2 formulas (biconditional-like shapes included)."""
